@@ -328,10 +328,28 @@ def reference():
     return _REF
 
 
+def _temp_candidates(func, names):
+    """names assigned exactly once and read exactly once: a refactoring's
+    named temporaries rather than renamed variables"""
+    out = set()
+    for nm in names:
+        st = ld = 0
+        for x in ast.walk(func):
+            if isinstance(x, ast.Name) and x.id == nm:
+                if isinstance(x.ctx, (ast.Store, ast.Del)):
+                    st += 1
+                else:
+                    ld += 1
+        if st == 1 and ld == 1:
+            out.add(nm)
+    return out
+
+
 def recover_names(tree, modname, ref=None):
     """alpha-rename locals to the reference spelling; returns
     {function qualname: {current name: reference name}} for the report"""
     ref = reference() if ref is None else ref
+    ref = ref.get("locals", ref)
     done = {}
     table = function_table(tree, modname)
     # outer functions first, so that a nested function sees the recovered
@@ -343,6 +361,12 @@ def recover_names(tree, modname, ref=None):
         func = table[q]
         cur = local_order(func)
         mapping = _align(cur, want)
+        if not mapping and set(cur) - set(want) and set(want) - set(cur):
+            # the refactoring may have added temporaries of its own: leave
+            # those out of the alignment
+            tc = _temp_candidates(func, set(cur) - set(want))
+            if tc:
+                mapping = _align([n for n in cur if n not in tc], want)
         if not mapping:
             continue
         taken = set(cur) | set(_params(func))
@@ -389,7 +413,24 @@ def canon_shapes(tree):
 
 
 def normalize(tree, modname):
+    from . import inline
+    ref = reference()
     info = {"noise_removed": strip_noise(tree)}
     info["reshaped"] = canon_shapes(tree)
-    info["renamed"] = recover_names(tree, modname)
+    if "functions" in ref:
+        info["constants_inlined"] = inline.inline_constants(tree, modname,
+                                                            ref)
+        info["helpers_inlined"] = inline.inline_helpers(tree, modname, ref)
+        # inlining may have produced `if not c: ... else: ...` again
+        canon_shapes(tree)
+        strip_noise(tree)
+    info["renamed"] = recover_names(tree, modname, ref)
+    if "functions" in ref:
+        n = 0
+        locs = ref.get("locals", {})
+        known_funcs = set(ref["functions"])
+        for q, func in function_table(tree, modname).items():
+            if q in known_funcs:
+                n += inline.inline_temporaries(func, set(locs.get(q, [])))
+        info["temporaries_inlined"] = n
     return info
